@@ -46,13 +46,16 @@ TRACE = LAYOUT + ["trace", "thread"]
 PROPS = {
     "C01": {
         "statement": "Scenario.C01_isolation: in every trace of the plan of every registration sequence, two systems open at the same time have non-conflicting declarations",
-        "engines": [plan("plan,flat,funnel,batch"), trace("flat,base,batch,funnel"), plan_nopar("plan,funnel,batch"), plan_release("plan,funnel,batch")],
+        "engines": [plan("plan,flat,funnel,batch"), trace("flat,base,batch,funnel"), plan_nopar("plan,funnel,batch"), plan_release("plan,funnel,batch"),
+                    # "a system that fetches only what it declared": the provided system-data types declare what they borrow
+                    {"engine": "sysdata", "args": {}, "quick": {"exhaust-upto": 6, "samples": 12, "pre-samples": 6}, "thorough": {"exhaust-upto": 8, "samples": 100, "pre-samples": 30}}],
+        "also": {"C06": ["reads()", "writes()", "borrows"]},
         "aspects": TRACE,
         "assumptions": [RAYON, CELL],
     },
     "C02": {
         "statement": "Scenario.C02_dependencies: D A precedes F B in every trace whenever B was registered with A among its dependencies",
-        "engines": [plan("deps,plan,batch"), trace("deps,base", quick=40, **{"long-holds": True}), plan_nopar("deps,plan"), plan_release("deps,plan,barriers")],
+        "engines": [plan("deps,plan,batch,funnel"), trace("deps,base", quick=40, **{"long-holds": True}), plan_nopar("deps,plan"), plan_release("deps,plan,barriers")],
         "aspects": TRACE,
         "assumptions": [RAYON],
     },
@@ -97,7 +100,7 @@ PROPS = {
     },
     "C07": {
         "statement": "C07_batch_reads/_writes (the batch accessor is exactly controller ∪ inner), C07_conflict_lifts, C07_nested_wf",
-        "engines": [plan("batch,plan"), trace("batch,kf1", quick=80), plan_nopar("batch")],
+        "engines": [plan("batch,plan,funnel"), trace("batch,kf1", quick=80), plan_nopar("batch")],
         "aspects": TRACE,
         "assumptions": [RAYON, CELL],
     },
@@ -225,8 +228,8 @@ PROPS = {
 
 
 
-def world(quick=1000, thorough=1500):
-    return {"engine": "world", "args": {},
+def world(quick=1000, thorough=1500, nopar=False):
+    return {"engine": "world", "args": {}, "nopar": nopar,
             "quick": {"cases": quick, "max-ops": 40, "conc-rounds": 4, "conc-threads": 6, "conc-ops": 2000},
             "thorough": {"cases": thorough, "max-ops": 400, "conc-rounds": 20, "conc-threads": 12, "conc-ops": 20000},
             "search": {"cases": 3000, "max-ops": 60, "conc-rounds": 8, "conc-threads": 8, "conc-ops": 5000}}
@@ -235,8 +238,14 @@ def world(quick=1000, thorough=1500):
 PROPS["C08"] = {
     "statement": "C08.every_history / step_preserves_inv (each cell is free, shared by exactly its n live shared guards, or exclusive with exactly one live guard, after every legal history — histories include closures that take guards and panic, and &mut calls that meet a panic of user code), C08.outcome_spec (None iff absent, borrow panic iff an incompatible guard is alive, a guard otherwise), C08.panic_frame (+ unwinding of composite fetches), C08.drop_exact, C08.scope_frame / scope_restores / unwind_eq_return (a closure that takes guards of any kind and returns, panics or is refused a fetch half-way leaves every cell and every outer guard as they were), C08.entry_guard_unwinds, C08.exec_closure_panics",
     "engines": [world(),
+                # the build without the `parallel` feature (whatever differs under cfg(feature), e.g. the cell used)
+                world(quick=300, thorough=600, nopar=True),
+                # composite fetches (tuples up to 26 members, derived structs) that fail half-way release what they took
+                {"engine": "sysdata", "args": {}, "quick": {"exhaust-upto": 6, "samples": 12, "pre-samples": 6}, "thorough": {"exhaust-upto": 8, "samples": 100, "pre-samples": 30}},
                 # the borrow word itself: the transcription of atomic_refcell's four operations against the real cell, word for word
-                {"engine": "cellword", "args": {}, "quick": {"cases": 400, "stress-rounds": 2}, "thorough": {"cases": 20000, "max-len": 80, "stress-rounds": 8, "stress-ops": 400000}}],
+                {"engine": "cellword", "args": {}, "quick": {"cases": 400, "stress-rounds": 2}, "thorough": {"cases": 20000, "max-len": 80, "stress-rounds": 8, "stress-ops": 400000}},
+                {"engine": "cellword", "args": {}, "quick": {"cases": 200}, "thorough": {"cases": 4000, "max-len": 80}, "nopar": True}],
+    "also": {"C06": ["[unwind]", "[release]"]},
     "aspects": ["outcome", "state", "cellword"],
     # the compile-time half of "never an aliasing guard": what is handed out borrows from the guard / the world
     "probes": [{"dir": "probes/meta_ref_outlives_guard", "expect": "fail", "grep": "error[E0505]", "single": True, "why": "the trait object MetaTable::get returns must not outlive the guard it was derived from"},
@@ -248,7 +257,7 @@ PROPS["C08"] = {
 }
 PROPS["C09"] = {
     "statement": "C09.refines_state / refines_out (every operation commutes with abs : World -> (ResId -> Option Token) and answers what the map answers), C09.typed_linear_invariant (type tag = key type; conservation of values), C09.mismatch_panics, C09.linear / dropped_exactly_once — all over histories that include values whose Drop panics and closures that panic; C09.insert_replaces_when_drop_panics, or_insert_occupied_drop_panics, or_insert_with_closure_panics, entry_stores_before_caller_panics, dropReturned_keeps_linear, dropWorld_panic_at_most_once (the interrupted drop of the world drops or leaks each value, never twice)",
-    "engines": [world()],
+    "engines": [world(), world(quick=300, thorough=600, nopar=True)],
     # "presence queries and fetches agree": a fetch that answers None for a present resource
     "also": {"C08": ["None was returned although the resource is present"]},
     "aspects": ["outcome", "state", "ghost"],
